@@ -107,8 +107,9 @@ CHECKS = {
              'and matched at the position\'s start offset; applicability table of a rule in a start state; tiling (offset '
              'advances by exactly the longest match and only if > 0, emitted lexeme = (token of the chosen rule, start, '
              'longest), every error ends lexing); start-state stack operations per operation variant, on every path; the regex '
-             'handed to the engine is the user text grouped behind an anchor (\\A(?:..)).',
-        note='What the regexes match and the id synchronisation sets are NOT decided. Trusted: regex crate; ' + TB,
+             'handed to the engine is the user text grouped behind an anchor (\\A(?:..)); whether the id synchronisation answers "nothing '
+             'missing" is decided by an emptiness test, never by comparing counts (found the defect fixed in /repo 4eebccd).',
+        note='What the regexes match and the contents of the id synchronisation sets are NOT decided. Trusted: regex crate; ' + TB,
         technique='symbolic cycle tables of the lexing loops extracted from MIR (strictness/orientation of comparisons, provenance of emitted values)',
         ref='§4 C09'),
     'C10': dict(
